@@ -666,11 +666,13 @@ class TextEngine:
         n = self.counter
         H = len(self.headings)
         if rng.chance(self.cfg["p_restart"], "restart?"):
-            return {"op": "restart", "how": rng.choice(["xml", "doc"], "rhow")}
+            return {"op": "restart", "how": rng.choice(["xml", "doc", "doc_pretty"], "rhow")}
         what = rng.weighted([("add_heading", 8), ("insert_heading", 3), ("delete_heading", 2 if H else 0), ("retitle", 2 if H else 0), ("relevel", 2 if H else 0),
-                             ("add_para", 2), ("set_outline", 2), ("add_toc", 2 if not self.has_toc else 0), ("move_toc", 1 if self.has_toc else 0),
-                             ("fill", 6 if self.has_toc else 0), ("fill_twice", 3 if self.has_toc else 0)], "what20")
+                             ("add_para", 2), ("set_outline", 2 if self.tocs else 0), ("add_toc", 2 if len(self.tocs) < 2 else 0), ("move_toc", 1 if self.tocs else 0),
+                             ("style_title", 1.5 if self.tocs else 0), ("fill", 6 if self.tocs else 0), ("fill_twice", 3 if self.tocs else 0)], "what20")
         op = {"op": what, "n": n}
+        if what in ("set_outline", "move_toc", "style_title", "fill", "fill_twice"):
+            op["ti"] = rng.randint(0, len(self.tocs) - 1, "ti")
         if what in ("add_heading", "insert_heading"):
             op["level"] = rng.randint(1, self.cfg.get("max_level", 3), "level")
             op["text"] = self._heading_text(rng, n)
@@ -691,6 +693,10 @@ class TextEngine:
             op["at"] = rng.choice(["first", "last"], "tocat")
         elif what == "move_toc":
             op["at"] = rng.choice(["first", "last"], "tocat")
+        elif what == "style_title":
+            op["title"] = rng.choice(["Contents", "Table  des matières", "Index"], "ttitle") + f" {n}"
+            op["style"] = rng.choice([None, "Sect1"], "tstyle")
+            op["text_style"] = rng.choice([None, "Contents_20_Heading", "MyTitle"], "ttstyle")
         elif what in ("fill", "fill_twice"):
             op["via"] = rng.choice(["attached", "document_arg"], "fillvia")
             op["default_styles"] = rng.chance(0.7, "defstyles")
@@ -721,14 +727,11 @@ class TextEngine:
             self.doc = Document("text")
             self.doc.body.clear()
             self.headings = []
-            self.has_toc = False
-            self.outline = 0
-            self.title = "Table of Contents"
+            self.tocs = []  # one dict per TOC, in document order: {"outline": int, "title": str}
             if op["toc_at"] == "first":
                 toc = TOC(outline_level=op["outline"])
                 self.doc.body.append(toc)
-                self.has_toc = True
-                self.outline = op["outline"]
+                self.tocs.append({"outline": op["outline"], "title": "Table of Contents"})
             self._outcome = "init"
             return []
         body = self.doc.body
@@ -737,9 +740,10 @@ class TextEngine:
         def heading_elements():
             return [h for h in body.get_headers() if not any(a.tag == xmlref.q("text:table-of-content") for a in lx(h).iterancestors())]
 
-        def toc_el():
+        def toc_el(i=None):
             tocs = body.get_tocs()
-            return tocs[0] if tocs else None
+            i = op.get("ti", 0) if i is None else i
+            return tocs[i] if i < len(tocs) else None
 
         try:
             if name in ("add_heading", "insert_heading"):
@@ -783,30 +787,46 @@ class TextEngine:
                 body.append(Paragraph(f"text {op['n']}"))
             elif name == "set_outline":
                 t = toc_el()
-                if t is not None:
+                if t is not None and op.get("ti", 0) < len(self.tocs):
                     t.outline_level = op["outline"]
-                    self.outline = op["outline"]
+                    self.tocs[op.get("ti", 0)]["outline"] = op["outline"]
             elif name == "add_toc":
-                if not self.has_toc:
+                if len(self.tocs) < 2:
                     toc = TOC(outline_level=op["outline"])
+                    rec = {"outline": op["outline"], "title": "Table of Contents"}
                     if op["at"] == "first":
                         body.insert(toc, position=0)
+                        self.tocs.insert(0, rec)
                     else:
                         body.append(toc)
-                    self.has_toc = True
-                    self.outline = op["outline"]
+                        self.tocs.append(rec)
             elif name == "move_toc":
                 t = toc_el()
-                if t is not None:
+                i = op.get("ti", 0)
+                if t is not None and i < len(self.tocs):
                     body.delete(t)
+                    rec = self.tocs.pop(i)
                     if op["at"] == "first":
                         body.insert(t, position=0)
+                        self.tocs.insert(0, rec)
                     else:
                         body.append(t)
+                        self.tocs.append(rec)
+            elif name == "style_title":
+                t = toc_el()
+                i = op.get("ti", 0)
+                if t is not None and i < len(self.tocs):
+                    kw = {}
+                    if op.get("style"):
+                        kw["style"] = op["style"]
+                    if op.get("text_style"):
+                        kw["text_style"] = op["text_style"]
+                    t.set_toc_title(op["title"], **kw)
+                    self.tocs[i]["title"] = op["title"]
             elif name == "restart":
-                if op.get("how") == "doc":
+                if op.get("how") in ("doc", "doc_pretty"):
                     buf = io.BytesIO()
-                    self.doc.save(buf)
+                    self.doc.save(buf, pretty=(op.get("how") == "doc_pretty"))
                     buf.seek(0)
                     self.doc = Document(buf)
                 else:
@@ -814,14 +834,18 @@ class TextEngine:
                     self.doc.set_part("content.xml", data)
                 self.n_restart += 1
                 body = self.doc.body
+                if op.get("how") == "doc_pretty":
+                    # a pretty save may add white space inside headings (known C11 finding): the
+                    # outline model continues from the headings as the reloaded document has them
+                    self._c20_sync_from_doc()
             elif name in ("fill", "fill_twice"):
                 return self._c20_fill(op, toc_el(), feats)
         except Exception as e:
             self._outcome = name + ":exc"
             return [Violation("C20", "raises", name, feats, type(e).__name__, f"{type(e).__name__}: {e}")]
         self._outcome = name + ":ok"
-        self.stats.transitions.add((name, op.get("level"), self.outline, len(self.headings) > 3))
-        self.stats.states.add(hashlib.sha1(repr((self.headings, self.outline, self.has_toc)).encode()).hexdigest()[:12])
+        self.stats.transitions.add((name, op.get("level"), tuple(t["outline"] for t in self.tocs), len(self.headings) > 3))
+        self.stats.states.add(hashlib.sha1(repr((self.headings, self.tocs)).encode()).hexdigest()[:12])
         return []
 
     @staticmethod
@@ -850,7 +874,17 @@ class TextEngine:
         if toc is None:
             return []
         doc = self.doc
+        ti = op.get("ti", 0)
+        if ti >= len(self.tocs):
+            return []
         self.n_fill += 1
+        my_outline = self.tocs[ti]["outline"]
+        my_title = self.tocs[ti]["title"]
+        if len(self.tocs) > 1:
+            feats.append("two_tocs")
+        pre_title = lx(toc).find(xmlref.q("text:index-body"))
+        pre_title = pre_title.find(xmlref.q("text:index-title")) if pre_title is not None else None
+        pre_title_c14n = xmlref.c14n(pre_title) if pre_title is not None else None
         kw = {}
         if op.get("via") == "document_arg":
             kw["document"] = doc
@@ -861,7 +895,7 @@ class TextEngine:
         except Exception as e:
             self._outcome = name + ":exc"
             return [Violation("C20", "raises", name, feats, type(e).__name__, f"{type(e).__name__}: {e}")]
-        outline = self.outline or 10
+        outline = my_outline or 10
         listed = [(lvl, txt) for lvl, txt in self.headings if 1 <= lvl <= outline]
         levels = [lvl for lvl, _ in listed]
         if any(lvl < 1 for lvl, _ in self.headings):
@@ -869,7 +903,7 @@ class TextEngine:
         numbers = self._outline_numbers(levels)
         if any(sk for _, sk in numbers):
             feats.append("skipped_levels")
-        if self.outline:
+        if my_outline:
             feats.append("outline_limited")
         root = xmlref.reparse(lx(toc))
         ib = root.find(xmlref.q("text:index-body"))
@@ -877,18 +911,22 @@ class TextEngine:
             return [Violation("C20", "no-index-body", name, feats, None, "")]
         entries = []
         title = None
+        post_title_c14n = None
         for child in ib:
             if child.tag == xmlref.q("text:index-title"):
                 title = " ".join(xmlref.raw_text(p) for p in child.iter(xmlref.X_P))
+                post_title_c14n = xmlref.c14n(child)
                 continue
             if child.tag == xmlref.X_P:
                 entries.append(xmlref.raw_text(child))
             else:
                 entries.append("<" + child.tag.rsplit("}", 1)[1] + ">")
         self._outcome = name + ":filled"
-        self.stats.transitions.add((name, tuple(levels[:6]), self.outline, op.get("via")))
-        if title != self.title:
-            return [Violation("C20", "title-lost", name, feats, None, f"title {title!r}, expected {self.title!r}")]
+        self.stats.transitions.add((name, tuple(levels[:6]), my_outline, op.get("via"), len(self.tocs)))
+        if title != my_title:
+            return [Violation("C20", "title-lost", name, feats, None, f"title {title!r}, expected {my_title!r}")]
+        if pre_title_c14n is not None and post_title_c14n != pre_title_c14n:
+            return [Violation("C20", "title-altered", name, feats, None, "the index title element (its styles / markup) is not what it was before fill()")]
         if len(entries) != len(listed):
             return [Violation("C20", "entry-count", name, feats, None, f"{len(entries)} entries for {len(listed)} headings of level <= {outline}: {entries!r}")]
         all_got = []
